@@ -9,8 +9,8 @@ On break: harness `oracle` evaluates the property's clauses directly on the real
 """
 import os
 
-THEOREMS = ["IstioModel.C02.Theorems"]
-STREAMS = ("merge",)
+THEOREMS = ["IstioModel.C02.Theorems", "IstioModel.C02.QueueTheorems"]
+STREAMS = ("merge", "queue")
 
 
 def oracle(ctx, stream, case_lines, rep):
@@ -82,7 +82,9 @@ def run(ctx):
         return
     if not ctx.go_build():
         return
+    ctx.trusted.append("pilot/pkg/xds/zz_verif_c02.go (verif-tagged read-only snapshot of PushQueue tables; entry points to debounce / doSendPushes)")
     ctx.diff_stream("merge", ctx.n(4000, 100000), oracle=oracle)
+    ctx.diff_stream("queue", ctx.n(1500, 40000), oracle=oracle)
     for stream in STREAMS:
         oracle_all(ctx, stream)
     if not proved and not ctx.violations:
